@@ -115,6 +115,11 @@ func (d *DateTime) UnmarshalUT0311L0x(b []byte) (any, error) {
 		return nil, err
 	}
 
+	// ... the zero value is encoded as 0001-01-01 00:00:00 (which is not the zero value in a local timezone other than UTC)
+	if decoded == "00010101000000" {
+		return &DateTime{}, nil
+	}
+
 	datetime, err := time.ParseInLocation("20060102150405", decoded, time.Local)
 	if err != nil {
 		return &DateTime{}, nil
